@@ -9,7 +9,10 @@ import common, gen
 from common import pmap, rng, build
 
 MARK = ''
+DOTSENT = b'%%DOT%%'
 REVEAL = b'G"ap"bp"1p"2p""p'
+# register '.' right after the part under test, between two sentinel lines (ex puts do not disturb the repeat buffer)
+GRABDOT = b'mz:$pu y\n:$pu .\n:$pu y\n`z'
 
 
 def change_cmd(R, kind):
@@ -60,16 +63,14 @@ def make_case(idx):
         regfile = ('rs r\n' + body + '\n.\n').encode()
         a = prefix + c + moves + '@r'
         b = prefix + c + moves + c + tail + '\n'
-    tail = ('\x1bi' + MARK + '\x1b').encode() + REVEAL + b':w! out\n'
+    tail = b'\x1b' + GRABDOT + ('i' + MARK + '\x1b').encode() + REVEAL + b':w! out\n'
     return {'lines': lines, 'a': a.encode() + tail, 'b': b.encode() + tail, 'c': c, 'cls': cls, 'variant': variant, 'regfile': regfile, 'idx': idx}
 
 
 def run_one(vi, case, keys):
     files = {'f1': gen.buf_bytes(case['lines'])}
-    envx = {}
-    if case['regfile']:
-        files['regs'] = case['regfile']
-        envx['EXINIT'] = 'so regs'
+    files['regs'] = b'rs y\n' + DOTSENT + b'\n.\n' + (case['regfile'] or b'')
+    envx = {'EXINIT': 'so regs'}
     r, d = common.run_vi(vi, keys, files=files, timeout=90, envx=envx)
     out = common.readf(d, 'out')
     common.rmcase(d)
@@ -89,6 +90,12 @@ def run_case(args):
     if ra.timed_out or rb.timed_out or oa is None or ob is None:
         return ('inconclusive', None, wit, case)
     orig = gen.buf_bytes(case['lines'])
+    if case['variant'] != 'macro':
+        # the change must have been taken as ONE repeatable command: register '.' (revealed at the end of run B) holds exactly its keys
+        parts = ob.split(DOTSENT + b'\n')
+        dot = parts[1][:-1] if len(parts) >= 3 else None
+        if dot != case['c'].encode():
+            return ('ok-trivial', None, None, case)
     if oa != ob:
         la, lb = oa.split(b'\n'), ob.split(b'\n')
         i = next((k for k in range(min(len(la), len(lb))) if la[k] != lb[k]), min(len(la), len(lb)))
